@@ -472,6 +472,29 @@ func c18R7(c *Ctx, fns []*ssa.Function) {
 					}
 				}
 			}
+			var via ssa.CallInstruction
+			if dec == nil && f0 != nil {
+				// the decoding step may be a helper handed the opened file
+				src := map[ssa.Value]bool{f0: true}
+				for _, hc := range Calls(f, func(string) bool { return true }) {
+					H := StaticCallee(hc)
+					if H == nil || !inModule(H) || len(H.Blocks) == 0 || fnPkgPath(H) != fnPkgPath(f) {
+						continue
+					}
+					args := hc.Common().Args
+					for i, a := range args {
+						if i >= len(H.Params) || !c11DerivesFrom(a, src) {
+							continue
+						}
+						hsrc := map[ssa.Value]bool{H.Params[i]: true}
+						for _, d := range CallsTo(H, "(*encoding/json.Decoder).Decode", "encoding/json.Unmarshal") {
+							if c11DerivesFrom(d.Common().Args[0], hsrc) {
+								dec, target, via = d, d.Common().Args[1], hc
+							}
+						}
+					}
+				}
+			}
 			if dec == nil {
 				c.Violation(R7, fn+"|document-decoded-whole", op.Pos(), "the opened config file is not JSON-decoded in the function that opens it: cannot see that the document is read as a whole")
 				continue
@@ -483,6 +506,9 @@ func c18R7(c *Ctx, fns []*ssa.Function) {
 				}
 			}
 			r := ErrFlow(dec, ErrFlowOpts{})
+			if r.OK && via != nil {
+				r = ErrFlow(via, ErrFlowOpts{})
+			}
 			okD := okT && r.OK
 			c.Check(R7, fn+"|document-decoded-whole", dec.Pos(), okD, ifelse(okD, "the file is decoded into a map[string]json.RawMessage (every top-level key kept verbatim); a decode error fails the load",
 				ifelse(!okT, "the config file is decoded into a typed value, not a raw map: top-level fields this library does not know are dropped at load and lost at the next save",
@@ -909,6 +935,26 @@ func c18R1(c *Ctx, fns []*ssa.Function) {
 		}
 		F, links := c11FindUnit(I, hasWrite, 2, map[*ssa.Function]bool{})
 		scan := []*ssa.Function{I}
+		// the write may be one step of a table of step closures run by a first-error loop: the sequence
+		// "step1; step2; …" with early return — success of I then lies behind the "table exhausted" edge
+		var stepLoop *c11StepLoop
+		if F == nil {
+			for _, sl := range c11StepLoops(I) {
+				for _, st := range sl.Steps {
+					var g *ssa.Function
+					if mc, isMC := st.(*ssa.MakeClosure); isMC {
+						g, _ = mc.Fn.(*ssa.Function)
+					} else if fv, isFn := st.(*ssa.Function); isFn {
+						g = fv
+					}
+					if g != nil && len(g.Blocks) > 0 && hasWrite(g) {
+						sl := sl
+						F, stepLoop = g, &sl
+						scan = append(scan, g)
+					}
+				}
+			}
+		}
 		for _, f := range fns {
 			if f == I || f.Parent() != nil {
 				continue
@@ -968,6 +1014,10 @@ func c18R1(c *Ctx, fns []*ssa.Function) {
 				}
 			}
 			ok = len(writes) > 0 && len(atoms) > 0 && len(wNil) > 0 && c11AllAtomsPass(atoms, func() *cut { return newCut().Edges(wNil...) }) && c11LinksPass(links)
+			if ok && stepLoop != nil {
+				ia := c11SuccessAtoms(I)
+				ok = len(ia) > 0 && c11AllAtomsPass(ia, func() *cut { return newCut().Edges(stepLoop.Done) }) && ErrFlow(stepLoop.Call, ErrFlowOpts{}).OK
+			}
 		}
 		c.Check(R1, in+"|success-implies-content-written", I.Pos(), ok,
 			ifelse(ok, "every successful return lies behind the err==nil edge of the content copy", "the ingest can report success without having written the whole content"))
@@ -992,6 +1042,23 @@ func c18WriterIsTempFile(c *Ctx, R1 string, I, F *ssa.Function, cp ssa.CallInstr
 			}
 			if ex, ok := r.(*ssa.Extract); ok && creates[ex] {
 				continue
+			}
+			if ld, ok := r.(*ssa.UnOp); ok && ld.Op == token.MUL && depth <= 3 {
+				// a variable of the enclosing function captured by a step / deferred literal: what the parent stored into it
+				if fv, isFV := ld.X.(*ssa.FreeVar); isFV {
+					n := 0
+					for _, b := range freeVarBindings(fv) {
+						if a, isA := b.(*ssa.Alloc); isA {
+							for _, st := range storesTo(a) {
+								n++
+								visit(st.Val, depth+1)
+							}
+						}
+					}
+					if n > 0 {
+						continue
+					}
+				}
 			}
 			call, isCall := r.(*ssa.Call)
 			if !isCall || depth > 3 {
